@@ -60,3 +60,6 @@ package parser
 //@ func (parser) errorf
 //@   results err
 //@   ensures err != nil
+//@ func scopeToNode
+//@   loop 1
+//@     invariant len(set) == len(t.Entities) && !isnil(set)
